@@ -7,7 +7,7 @@
    Only statements here; proofs live in Proofs/C03*.v. *)
 From Coq Require Import List NArith ZArith Bool String.
 From GoGit Require Import Base.Out Model.ObjLines Model.Ident Model.Commit Model.Tag Model.SigPayload
-     Spec.GitSig Spec.ObjWf Spec.SigGuards Proofs.C03Commit Proofs.C03CommitSig Proofs.C03Mutated Proofs.C03Tag.
+     Spec.GitSig Spec.ObjWf Spec.SigGuards Proofs.C03Commit Proofs.C03CommitSig Proofs.C03CommitSig256 Proofs.C03Mutated Proofs.C03Tag Proofs.C03TagSig.
 Import ListNotations.
 Local Open Scope N_scope.
 
@@ -65,6 +65,63 @@ Proof.
   intros V raw c Hd Hg Ht. rewrite (payload_fresh _ _ Hd), (strip_eq_pbsh _ Hg), (sig_eq_pbsh _ _ Hd Hg Ht). reflexivity.
 Qed.
 Print Assumptions C03_accepts_iff_commit.
+
+(* ... including Commit.Verify's own rule: a Signature with more than one
+   armored block is refused before the verifier is asked (git: gpg reports one
+   status per block and parse_gpg_output refuses a second one) *)
+Theorem C03_verify_commit : forall (V : bytes -> bytes -> bool) raw c,
+  decode_commit raw = Ok c -> commit_sig_guard raw = true -> hdr_terminated raw = true ->
+  let '(p, s, _) := git_commit_payload raw in
+  commit_verify V raw true c = (if Nat.ltb 1 (count_sig_blocks s) then false else V p s).
+Proof.
+  intros V raw c Hd Hg Ht. pose proof (strip_eq_pbsh _ Hg) as P. pose proof (sig_eq_pbsh _ _ Hd Hg Ht) as S.
+  destruct (git_commit_payload raw) as [[p s] f]. cbn [fst snd] in P, S.
+  unfold commit_verify. now rewrite (payload_fresh _ _ Hd), P, S.
+Qed.
+Print Assumptions C03_verify_commit.
+
+(* ---- SHA-256 repositories: `git verify-commit` checks the "gpgsig-sha256"
+   header (the "gpgsig" header is then just another gpgsig-prefixed header).
+   The payload is the same byte string ... *)
+Theorem C03_payload_commit_sha256_partial : forall raw c,
+  decode_commit raw = Ok c -> commit_sig_guard raw = true ->
+  commit_payload raw true c = fst (fst (git_commit_payload_fmt SHA256 raw)).
+Proof. intros raw c Hd Hg. rewrite (payload_fresh _ _ Hd). now apply strip_eq_pbsh_fmt. Qed.
+Print Assumptions C03_payload_commit_sha256_partial.
+
+(* ... and git's signature is what the scanner accumulates in Commit.SignatureSHA256 *)
+Theorem C03_sig_commit_sha256_partial : forall raw c,
+  decode_commit raw = Ok c -> commit_sig_guard raw = true -> hdr_terminated raw = true ->
+  c_sig256 c = snd (fst (git_commit_payload_fmt SHA256 raw)).
+Proof. exact sig256_eq_pbsh. Qed.
+Print Assumptions C03_sig_commit_sha256_partial.
+
+(* FULL STATEMENT for SHA-256 repositories (go-git accepts exactly when git
+   does) is FALSE of the code as it is: Commit.Verify always checks
+   Commit.Signature ("gpgsig"), never Commit.SignatureSHA256.  Witness: a
+   commit as `git commit -S` writes it in a SHA-256 repository, and a verifier
+   that accepts exactly git's (payload, signature) pair *)
+Theorem C03_accepts_iff_commit_sha256_refuted : exists (V : bytes -> bytes -> bool) raw c,
+  decode_commit raw = Ok c /\ commit_sig_guard raw = true /\ hdr_terminated raw = true /\
+  (let '(p, s, f) := git_commit_payload_fmt SHA256 raw in f = true /\ V p s = true) /\
+  commit_verify V raw true c = false.
+Proof.
+  exists (fun _ s => beqb s (unhex "2d2d2d2d2d424547494e20504750205349474e41545552452d2d2d2d2d0a780a2d2d2d2d2d454e4420504750205349474e41545552452d2d2d2d2d0a")).
+  exists (unhex "7472656520366566313962343132323563353336396631633130346434356438643835656661396230353762353362313462346239623933396464373464656363353332310a617574686f722041203c6140623e2031202b303030300a636f6d6d69747465722041203c6140623e2031202b303030300a6770677369672d736861323536202d2d2d2d2d424547494e20504750205349474e41545552452d2d2d2d2d0a20780a202d2d2d2d2d454e4420504750205349474e41545552452d2d2d2d2d0a0a6d0a").
+  eexists. split; [vm_compute; reflexivity|]. vm_compute. repeat split; reflexivity.
+Qed.
+Print Assumptions C03_accepts_iff_commit_sha256_refuted.
+
+(* PARTIAL: what is missing is only the choice of the field — a verifier that
+   were handed Commit.SignatureSHA256 would reach git's verdict *)
+Theorem C03_accepts_iff_commit_sha256_partial : forall (V : bytes -> bytes -> bool) raw c,
+  decode_commit raw = Ok c -> commit_sig_guard raw = true -> hdr_terminated raw = true ->
+  V (commit_payload raw true c) (c_sig256 c) =
+  V (fst (fst (git_commit_payload_fmt SHA256 raw))) (snd (fst (git_commit_payload_fmt SHA256 raw))).
+Proof.
+  intros V raw c Hd Hg Ht. rewrite (payload_fresh _ _ Hd), (strip_eq_pbsh_fmt SHA256 _ Hg), (sig256_eq_pbsh _ _ Hd Hg Ht). reflexivity.
+Qed.
+Print Assumptions C03_accepts_iff_commit_sha256_partial.
 
 (* a freshly decoded commit always takes the raw-source path *)
 Theorem C03_fresh_matches_source : forall raw c,
@@ -130,6 +187,56 @@ Theorem C03_payload_tag_partial : forall raw m,
   exists s, git_tag_payload raw = Some (Some (strip_tag raw, s)).
 Proof. exact tag_payload_eq. Qed.
 Print Assumptions C03_payload_tag_partial.
+
+(* ---- Tag.Signature.  FULL STATEMENT (the extracted signature is the one git
+   extracts) is FALSE: git looks for the last block start in the WHOLE object,
+   go-git in the message only *)
+Theorem C03_sig_tag_refuted : exists raw t p s,
+  decode_tag raw = Ok t /\ git_tag_payload raw = Some (Some (p, s)) /\ t_sig t <> s.
+Proof.
+  exists (unhex "6f626a65637420346238323564633634326362366562396130363065353462663864363932383866626565343930340a7479706520747265650a7461672076310a7461676765722047203c6740683e2033202b303230300a2d2d2d2d2d424547494e20504750205349474e41545552452d2d2d2d2d0a0a6d73670a").
+  do 3 eexists. split; [vm_compute; reflexivity|]. split; [vm_compute; reflexivity|]. vm_compute. discriminate.
+Qed.
+Print Assumptions C03_sig_tag_refuted.
+
+(* PARTIAL: when no header line starts a signature block (tag_marker_guard),
+   Tag.Signature is git's signature: the bytes from the last block start on ... *)
+Theorem C03_sig_tag_partial : forall raw t m,
+  decode_tag raw = Ok t -> tag_marker_guard raw = true -> parse_signed_bytes raw = Some m ->
+  t_sig t = skipn m raw.
+Proof. intros raw t m Hd Hk Hm. now rewrite (tag_sig_eq _ _ Hd Hk), Hm. Qed.
+Print Assumptions C03_sig_tag_partial.
+
+(* ... and empty exactly when git says "no signature found" *)
+Theorem C03_nosig_tag_partial : forall raw t,
+  decode_tag raw = Ok t -> tag_marker_guard raw = true -> parse_signed_bytes raw = None ->
+  git_tag_payload raw = None /\ t_sig t = [].
+Proof. intros raw t Hd Hk Hm. now apply tag_nosig. Qed.
+Print Assumptions C03_nosig_tag_partial.
+
+(* consequence: under both tag guards go-git hands a verifier exactly git's
+   (payload, signature) pair, so with the same verifier the verdicts agree.
+   Nothing here depends on the object format: git's verify-tag takes the
+   trailing inline signature in SHA-1 and SHA-256 repositories alike (C-git
+   runs the same cases in a SHA-256 repository) *)
+Theorem C03_accepts_iff_tag : forall (V : bytes -> bytes -> bool) raw t m,
+  decode_tag raw = Ok t -> parse_signed_bytes raw = Some m ->
+  tag_sig_guard raw = true -> tag_marker_guard raw = true ->
+  exists p s, git_tag_payload raw = Some (Some (p, s)) /\ tag_verify V raw true t = V p s.
+Proof.
+  intros V raw t m Hd Hm Hg Hk. exists (tag_payload raw true t), (t_sig t).
+  split; [exact (tag_pair_eq _ _ _ Hd Hm Hg Hk)|reflexivity].
+Qed.
+Print Assumptions C03_accepts_iff_tag.
+
+(* non-vacuity: a tag of a SHA-256 repository (64-digit object id) with a
+   gpgsig-sha256 header, continuation line and inline signature *)
+Example C03_tag_sig_nonvacuous :
+  let raw := unhex "6f626a65637420366566313962343132323563353336396631633130346434356438643835656661396230353762353362313462346239623933396464373464656363353332310a7479706520747265650a7461672076310a7461676765722047203c6740683e2033202b303230300a6770677369672d73686132353620610a20620a0a6d73670a2d2d2d2d2d424547494e20504750205349474e41545552452d2d2d2d2d0a6162630a2d2d2d2d2d454e4420504750205349474e41545552452d2d2d2d2d0a" in
+  tag_sig_guard raw = true /\ tag_marker_guard raw = true /\
+  exists t, decode_tag raw = Ok t /\ t_sig t = unhex "2d2d2d2d2d424547494e20504750205349474e41545552452d2d2d2d2d0a6162630a2d2d2d2d2d454e4420504750205349474e41545552452d2d2d2d2d0a" /\
+            git_tag_payload raw = Some (Some (tag_payload raw true t, t_sig t)).
+Proof. vm_compute. repeat split; try reflexivity. eexists. repeat split; reflexivity. Qed.
 
 Example C03_tag_guard_nonvacuous :
   let raw := unhex "6f626a65637420346238323564633634326362366562396130363065353462663864363932383866626565343930340a7479706520747265650a7461672076310a6770677369672d73686132353620610a20620a782d6b20760a67706773696720630a0a6d73670a2d2d2d2d2d424547494e20504750205349474e41545552452d2d2d2d2d0a" in
